@@ -2,6 +2,8 @@ import TD.C05.LemRead
 /-! C05: the reader's loops on an encoded file, in terms of a zipper over the chunk structure. -/
 namespace TD.C05
 
+variable {cfg : Cfg} [Pad0 cfg]
+
 /-! ### encoder states -/
 
 def ES.BackLe (st : ES) : Prop := st.back ≤ st.pos
@@ -146,7 +148,7 @@ theorem stAfterRecs_pos_mono (L : Layout) (st : ES) (rrs : List Bytes) : st.pos 
 /-- at the end of the last chunk of a record: the trailer is consumed and the reader stands before the next record -/
 theorem finishRec {L : Layout} {f : Bytes} {z : Z} {s : Rd} (h : CInside L f z s)
     (hj : z.j = z.c.length) (hcs : z.cs = []) :
-    ∃ s1, readTail f s = .ok s1 ∧ CStart L f (z.st2 L) z.rrs s1 ∧ s1.startOfLr = s.startOfLr := by
+    ∃ s1, readTail cfg f s = .ok s1 ∧ CStart L f (z.st2 L) z.rrs s1 ∧ s1.startOfLr = s.startOfLr := by
   have hd := h.drop
   unfold tailInside at hd
   rw [hj, List.drop_length, List.nil_append, hcs] at hd
@@ -156,7 +158,7 @@ theorem finishRec {L : Layout} {f : Bytes} {z : Z} {s : Rd} (h : CInside L f z s
     simp only [List.length_drop, List.length_append, trailerOf_length] at this; omega
   have hattr := h.attr
   rw [hcs] at hattr
-  have e1 := readTail_ok (f := f) L z.pre.isEmpty ([] : List Bytes).isEmpty hattr hlen h.eof
+  have e1 := readTail_ok (cfg := cfg) (f := f) L z.pre.isEmpty ([] : List Bytes).isEmpty hattr hlen h.eof
   have hd2 := drop_add_of_drop hd
   rw [trailerOf_length] at hd2
   have hst2 : z.st2 L = (z.st L).next L z.c := by unfold Z.st2; rw [hcs]; rfl
@@ -178,9 +180,9 @@ theorem stAfterChunks_pos_mono (L : Layout) (st : ES) (cs : List Bytes) : st.pos
 /-- at the end of a chunk that has a successor: trailer and next header are consumed -/
 theorem nextChunk {L : Layout} (hL : L.Valid) {f : Bytes} {z : Z} {s : Rd} (h : CInside L f z s)
     (hj : z.j = z.c.length) (c2 : Bytes) (cs2 : List Bytes) (hcs : z.cs = c2 :: cs2) :
-    ∃ s1 s2, readTail f s = .ok s1 ∧ s1.hasSuccessor = true ∧ readHead f s1 = .ok s2
+    ∃ s1 s2, readTail cfg f s = .ok s1 ∧ s1.hasSuccessor = true ∧ readHead cfg f s1 = .ok s2
       ∧ CInside L f ⟨z.stR, z.pre ++ [z.c], c2, cs2, 0, z.rrs⟩ s2 ∧ s2.startOfLr = s.startOfLr
-      ∧ Z.st2 L ⟨z.stR, z.pre ++ [z.c], c2, cs2, 0, z.rrs⟩ = z.st2 L := by
+      ∧ Z.st2 L ⟨z.stR, z.pre ++ [z.c], c2, cs2, 0, z.rrs⟩ = z.st2 L ∧ s1.isEOF = false := by
   have hd := h.drop
   unfold tailInside at hd
   rw [hj, List.drop_length, List.nil_append, hcs] at hd
@@ -190,7 +192,7 @@ theorem nextChunk {L : Layout} (hL : L.Valid) {f : Bytes} {z : Z} {s : Rd} (h : 
     simp only [List.length_drop, List.length_append, trailerOf_length] at this; omega
   have hattr := h.attr
   rw [hcs] at hattr
-  have e1 := readTail_ok (f := f) L z.pre.isEmpty (c2 :: cs2).isEmpty hattr hlen h.eof
+  have e1 := readTail_ok (cfg := cfg) (f := f) L z.pre.isEmpty (c2 :: cs2).isEmpty hattr hlen h.eof
   have hd2 := drop_add_of_drop hd
   rw [trailerOf_length] at hd2
   obtain ⟨b0, _⟩ := bitSet_attrOf L z.pre.isEmpty (c2 :: cs2).isEmpty
@@ -216,10 +218,10 @@ theorem nextChunk {L : Layout} (hL : L.Valid) {f : Bytes} {z : Z} {s : Rd} (h : 
       = encPR L ((z.st L).next L z.c) false cs2.isEmpty c2
         ++ (encChunks L (((z.st L).next L z.c).next L c2) false cs2 ++ tailStart L (z.st2 L) z.rrs) := by
     simpa using hd2
-  obtain ⟨s2, e2, hp⟩ := readHead_ok (f := f) L { s with mustReadHead := true, pos := s.pos + L.prtLen }
+  obtain ⟨s2, e2, hp⟩ := readHead_ok (cfg := cfg) (f := f) L { s with mustReadHead := true, pos := s.pos + L.prtLen }
     ((z.st L).next L z.c) false cs2.isEmpty c2 h.tm h.tl hpos1 hd3 (prLenOf_lt L hL c2 hc2.2) (by omega) (by omega)
   have hpe : (z.pre ++ [z.c]).isEmpty = false := by cases z.pre <;> rfl
-  refine ⟨_, s2, e1, hsucc, e2, ?_, ?_, hst2'⟩
+  refine ⟨_, s2, e1, hsucc, e2, ?_, ?_, hst2', h.eof⟩
   · refine ⟨?_, ?_, ?_, hp.ldLen, hp.ldIndex, Nat.zero_le _, hp.mrh, ?_, hp.tm, ?_, h.bl, ?_, h.rne, ?_⟩
     · rw [hst', hp.pos, hpos1]; rfl
     · rw [hp.drop]; unfold tailInside; simp only [hst', hst2', List.drop_zero, hpe]
@@ -235,7 +237,7 @@ theorem nextChunk {L : Layout} (hL : L.Valid) {f : Bytes} {z : Z} {s : Rd} (h : 
 /-- before a record: the header of its first PR is read -/
 theorem openRecC {L : Layout} (hL : L.Valid) {f : Bytes} {st : ES} {r : Bytes} {rrs : List Bytes} {s : Rd}
     (h : CStart L f st (r :: rrs) s) :
-    ∃ c cs s', chunks L.maxPayload r = c :: cs ∧ readHead f s = .ok s'
+    ∃ c cs s', chunks L.maxPayload r = c :: cs ∧ readHead cfg f s = .ok s'
       ∧ CInside L f ⟨st, [], c, cs, 0, rrs⟩ s' ∧ s'.startOfLr = s.pos := by
   have hmp : 1 ≤ L.maxPayload := by have := hL.2; unfold Layout.maxPayload; omega
   have hrne : r ≠ [] := h.rne r (by simp)
@@ -254,7 +256,7 @@ theorem openRecC {L : Layout} (hL : L.Valid) {f : Bytes} {st : ES} {r : Bytes} {
   have m3 : (st.next L c).pos = st.pos + L.tifLen + prLenOf L c := rfl
   have hbl := h.bl
   unfold ES.BackLe at hbl
-  obtain ⟨s', e1, hp⟩ := readHead_ok (f := f) L s st true cs.isEmpty c h.tm h.tl h.pos hd
+  obtain ⟨s', e1, hp⟩ := readHead_ok (cfg := cfg) (f := f) L s st true cs.isEmpty c h.tm h.tl h.pos hd
     (prLenOf_lt L hL c hcc.2) (by omega) (by omega)
   refine ⟨c, cs, s', hc, e1, ?_, ?_⟩
   · refine ⟨?_, ?_, hp.attr, hp.ldLen, hp.ldIndex, Nat.zero_le _, hp.mrh, ?_, hp.tm, hp.tl, h.bl, ?_,
@@ -299,7 +301,7 @@ theorem advanceZ {L : Layout} {f : Bytes} {z : Z} {s : Rd} (h : CInside L f z s)
 /-- the "all the rest" loop: from inside a record to the start of the next one -/
 theorem allLoop_ok {L : Layout} (hL : L.Valid) {f : Bytes} : ∀ (cs : List Bytes) (z : Z) (s : Rd) (acc : Acc)
     (fuel : Nat), z.cs = cs → CInside L f z s → cs.length < fuel →
-    ∃ s', allLoop f fuel s acc = .ok (s', acc.app (z.c.drop z.j ++ cs.flatten))
+    ∃ s', allLoop cfg f fuel s acc = .ok (s', acc.app (z.c.drop z.j ++ cs.flatten))
       ∧ CStart L f (z.st2 L) z.rrs s' ∧ s'.startOfLr = s.startOfLr := by
   intro cs
   induction cs with
@@ -310,7 +312,7 @@ theorem allLoop_ok {L : Layout} (hL : L.Valid) {f : Bytes} : ∀ (cs : List Byte
     | succ k =>
       obtain ⟨e1, h1⟩ := advanceZ h acc (z.c.length - z.j) (Nat.le_refl _)
       have hjle := h.jle
-      obtain ⟨s2, e2, h2, e3⟩ := finishRec (z := { z with j := z.j + (z.c.length - z.j) }) h1
+      obtain ⟨s2, e2, h2, e3⟩ := finishRec (cfg := cfg) (z := { z with j := z.j + (z.c.length - z.j) }) h1
         (by simp only []; omega) hcs
       refine ⟨s2, ?_, h2, e3⟩
       unfold allLoop
@@ -325,7 +327,7 @@ theorem allLoop_ok {L : Layout} (hL : L.Valid) {f : Bytes} : ∀ (cs : List Byte
     | succ k =>
       obtain ⟨e1, h1⟩ := advanceZ h acc (z.c.length - z.j) (Nat.le_refl _)
       have hjle := h.jle
-      obtain ⟨s2, s3, e2, e3, e4, h3, e5, e6⟩ := nextChunk hL (z := { z with j := z.j + (z.c.length - z.j) }) h1
+      obtain ⟨s2, s3, e2, e3, e4, h3, e5, e6, _⟩ := nextChunk (cfg := cfg) hL (z := { z with j := z.j + (z.c.length - z.j) }) h1
         (by simp only []; omega) c2 cs2 hcs
       obtain ⟨s', e7, h7, e8⟩ := ih ⟨z.stR, z.pre ++ [z.c], c2, cs2, 0, z.rrs⟩ s3
         (acc.app ((z.c.drop z.j).take (z.c.length - z.j))) k rfl h3 (by simpa using hf)
@@ -352,7 +354,7 @@ structure Adv (z z' : Z) (m : Nat) : Prop where
 /-- the sized loop: reads/skips `min (size - br) (what is left of the record)` bytes and stays inside the record -/
 theorem sizedLoop_ok {L : Layout} (hL : L.Valid) {f : Bytes} : ∀ (cs : List Bytes) (z : Z) (s : Rd) (acc : Acc)
     (fuel br size : Nat), z.cs = cs → CInside L f z s → cs.length < fuel → br ≤ size →
-    ∃ s' z', sizedLoop f fuel s acc br size = .ok (s', acc.app ((z.c.drop z.j ++ cs.flatten).take (size - br)))
+    ∃ s' z', sizedLoop cfg f fuel s acc br size = .ok (s', acc.app ((z.c.drop z.j ++ cs.flatten).take (size - br)))
       ∧ CInside L f z' s' ∧ Adv z z' (min (size - br) (z.c.length - z.j + cs.flatten.length))
       ∧ s'.startOfLr = s.startOfLr := by
   intro cs
@@ -406,7 +408,7 @@ theorem sizedLoop_ok {L : Layout} (hL : L.Valid) {f : Bytes} : ∀ (cs : List By
           obtain ⟨e1, h1⟩ := advanceZ h acc (z.c.length - z.j) (Nat.le_refl _)
           have hsucc := succ_of_inside h1
           simp only [hcs, List.isEmpty_cons, Bool.not_false] at hsucc
-          obtain ⟨s2, s3, e2, e3, e4, h3, e5, e6⟩ := nextChunk hL (z := { z with j := z.j + (z.c.length - z.j) }) h1
+          obtain ⟨s2, s3, e2, e3, e4, h3, e5, e6, _⟩ := nextChunk (cfg := cfg) hL (z := { z with j := z.j + (z.c.length - z.j) }) h1
             (by simp only []; omega) c2 cs2 hcs
           obtain ⟨s', z', e7, h7, a7, e8⟩ := ih ⟨z.stR, z.pre ++ [z.c], c2, cs2, 0, z.rrs⟩ s3
             (acc.app ((z.c.drop z.j).take (z.c.length - z.j))) k (br + (z.c.length - z.j)) size rfl h3
